@@ -27,6 +27,7 @@ EXPLANATION = (
     "N < P+k and otherwise the slice [P, P+k), varint read indexes only below N and advances by one). R4: reader and writer "
     "varint constants agree (mask = 2^shift - 1, continuation = 2^shift). Decides the shape conditions without which "
     "reassembly cannot be lossless; equality of delivered and sent sequences for all byte streams is not decided."
+    ' Added in the build: reader layout (the type, length and payload handed over are bound only by the matching reads, in wire order) and, for reads after the framing marker, no real value is a reason to give up.'
 )
 ASSUMPTIONS = ["bytes slicing/concatenation semantics", "the receive callback runs to completion (M1)"]
 
